@@ -216,7 +216,8 @@ def scenario_flags(body, seeds=()):
                         and s.rv.ops[0].place.local not in live:
                     live.add(s.rv.ops[0].place.local)
                     changed = True
-    return sorted(flags) + sorted(live - flags)
+    # enum tags first: they carry the verdicts of merged helpers and are the ones a cap on the number of flags must not cut
+    return sorted(live - flags) + sorted(flags)
 
 
 class Scenario(object):
